@@ -7,7 +7,7 @@ import sys
 from . import progs, ast_io, terms
 from .terms import g_str, g_list, g_nat, g_term
 
-IMPORTS = ['Lang.Ast', 'Sem.Machine', 'Sem.Sld', 'Sem.SldR', 'Sem.RunSem']
+IMPORTS = ['Lang.Ast', 'Lang.Front', 'Sem.Machine', 'Sem.Sld', 'Sem.SldR', 'Sem.RunSem']
 DEPTH = 30
 LIMIT = 150
 CAP = 1500
@@ -181,13 +181,14 @@ def compared_queries(case, io):
     return [i for i, iq in enumerate(io['queries']) if iq['end'] not in ('cap', 'budget')]
 
 def model_expr(case, io=None):
-    prog = ast_io.g_program(progs.number_anons(case['clauses']))
+    """the model is given the same source TEXT as the implementation: its own front end (Lang/Front.v) reads it"""
+    from .pyrepr_check import cps, g_cps
     qs = []
     for qi in compared_queries(case, io):
         q = case['queries'][qi]
         args, nq = query_terms(q)
         qs.append('(%s, %s, %s)' % (g_str(q[0]), g_list([g_term(a) for a in args]), g_nat(nq)))
-    return '(run_both %d %s %s %d)' % (DEPTH, prog, g_list(qs), LIMIT)
+    return '(run_both_src %d %s %s %d)' % (DEPTH, g_cps(cps(source_of(case))), g_list(qs), LIMIT)
 
 def model_views(mo):
     """[(ir_view, sld_view)] per query; a view is dict answers/count/err"""
@@ -203,6 +204,10 @@ def model_views(mo):
     return out
 
 def compare(case, io, mo):
+    if mo and mo[0] == 'front-rejects':
+        if 'rejected' in io:
+            return None
+        return 'the model front end rejects a source text that the implementation compiles'
     if 'rejected' in io:
         return 'the compiler rejected a generated program: %s %s' % (io['rejected'], io.get('msg'))
     views = model_views(mo)
